@@ -72,6 +72,22 @@ def specOp (ws : List String) : Option String :=
         | .ok x n => s!"OK {fmtItem x} {n}"
         | .nodata => "NODATA"
         | .fail e p => s!"ERR {match e with | .notEnough => "NOTENOUGHDATA" | .malformed => "MALFORMATED" | .syntax => "SYNTAXERROR" | .mem => "MEMERROR"} {p}")
+  | ["LN", h, k] => do
+      let pre ← (if h == "-" then some #[] else parseHex h); let k ← k.toNat?
+      let total := if k == 0 then 1 else if k == 1 then 256 else 65536
+      let step := fun (st : UInt64 × Nat × Nat) (v : Nat) =>
+        let a := if k == 0 then pre else if k == 1 then pre.push (UInt8.ofNat v) else (pre.push (UInt8.ofNat (v / 256))).push (UInt8.ofNat (v % 256))
+        let r := Spec.decode true 2048 (fun _ => true) (fun i => a.getD i 0) a.size
+        let (txt, ok) := match r with
+          | .ok x n => (s!"OK {fmtItem x} {n}", true)
+          | .nodata => ("NODATA", false)
+          | .fail e p => (s!"ERR {match e with | .notEnough => "NOTENOUGHDATA" | .malformed => "MALFORMATED" | .syntax => "SYNTAXERROR" | .mem => "MEMERROR"} {p}", false)
+        let h := txt.toUTF8.foldl (fun (h : UInt64) b => (h ^^^ b.toUInt64) * 1099511628211) st.1
+        let h := (h ^^^ 10) * 1099511628211
+        (h, if ok then st.2.1 + 1 else st.2.1, if ok then st.2.2 else st.2.2 + 1)
+      let (h, nok, nerr) := (List.range total).foldl step ((1469598103934665603 : UInt64), 0, 0)
+      let hex := String.ofList (Nat.toDigits 16 h.toNat)
+      some s!"{"".pushn '0' (16 - hex.length)}{hex} ok={nok} err={nerr}"
   | ["ENCODE", t] => do
       let x ← parseTree t
       some (listToHex (Spec.encode x) ++ s!" depth={Spec.openDepth x}")
